@@ -153,6 +153,12 @@ func CollPool(r *rng.R, n int) []string {
 		default:
 			al := rng.Pick(r, collAll)
 			out = append(out, string(al[r.Intn(len(al))]))
+			if r.Chance(1, 12) {
+				// long texts differing at the very end (sort keys of several kB up to > 64 kB)
+				n := rng.Pick(r, []int{900, 1500, 14000})
+				base := strings.Repeat(string(collWord(r, 10)), n/10)
+				out = append(out, base+"a", base+"A", base+"b", base[:len(base)/2]+"z")
+			}
 		}
 		if r.Chance(1, 50) {
 			out = append(out, "")
@@ -164,6 +170,11 @@ func CollPool(r *rng.R, n int) []string {
 
 func collNear(r *rng.R, s string) string {
 	w := []rune(s)
+	if r.Chance(1, 10) {
+		// a different string the collator cannot tell from s (ignorable code point): never
+		// co-stored (Storable), but a legitimate absent probe
+		return s + string(rng.Pick(r, []rune{0x200D, 0x00AD, 0x200B}))
+	}
 	switch r.Intn(6) {
 	case 0:
 		if len(w) == 0 {
@@ -273,6 +284,16 @@ func collKindOf[K any](name string, cfg CollCfg, conv collConv[K], mk func() art
 				out = append(out, conv.to(p+string(c)))
 			}
 			return out
+		},
+		Fan2: func(r *rng.R) ([]K, int, []K) {
+			p := string(collWord(r, rng.Pick(r, []int{0, 1, 4})))
+			b0 := 40 + r.Intn(180)
+			var upper, lower []K
+			for c := rune(0x4E00); c <= 0x4EFF; c++ {
+				upper = append(upper, conv.to(p+string(c)))
+				lower = append(lower, conv.to(p+string(rune(0x4E00+b0))+string(c)))
+			}
+			return upper, b0, lower
 		},
 		Deepen:   func(r *rng.R, a K) K { return conv.to(conv.from(a) + string(collWord(r, 1+r.Intn(2)))) },
 		HasRange: false, // carved out of C03
